@@ -49,7 +49,9 @@ func switchers() []switcher {
 		{name: "flow", btype: base.BlockTypeFlow,
 			opts: func() []sentinel.EntryOption { return nil },
 			loadAll: func(id string, others int) error {
-				rs := append(flowSw(id, others), &flow.Rule{ID: "kb", Resource: "kb", Threshold: 0})
+				rs := append(flowSw(id, others), &flow.Rule{ID: "kb", Resource: "kb", Threshold: 0},
+					// a rule that meters an associated resource, rebuilt by every load (its threshold changes)
+					&flow.Rule{ID: "assoc", Resource: "t0", RelationStrategy: flow.AssociatedResource, RefResource: "t1", Threshold: 1e9 + float64(others)})
 				for i := 0; i < others; i++ {
 					rs = append(rs, &flow.Rule{ID: fmt.Sprint("o", i), Resource: fmt.Sprint("t", i%3), Threshold: float64(1 + i)})
 				}
@@ -362,7 +364,8 @@ func TestRaceAndAtomicSwitch(t *testing.T) {
 							err = cb.ClearRulesOfResource("t1")
 						case 4:
 							if sw.name != "flow" {
-								_, err = flow.LoadRules([]*flow.Rule{{ID: id, Resource: "t2", Threshold: float64(10 + i%2), ControlBehavior: flow.Throttling, MaxQueueingTimeMs: 0}})
+								_, err = flow.LoadRules([]*flow.Rule{{ID: id, Resource: "t2", Threshold: float64(10 + i%2), ControlBehavior: flow.Throttling, MaxQueueingTimeMs: 0},
+									{ID: "assoc", Resource: "t0", RelationStrategy: flow.AssociatedResource, RefResource: "t1", Threshold: 1e9 + float64(i%5)}})
 							}
 						case 5:
 							res := fmt.Sprint("oc", atomic.AddInt64(&outlierN, 1)%4)
